@@ -13,7 +13,7 @@ use vcore::gen::{self, StreamCfg};
 use vcore::rt::{self, digest_str, esc, Acc, Args, Report};
 use vcore::vt::{self, St};
 
-const RULE: &str = "A case is (colour choice, sink kind, constructor, operation sequence). Operation sequences of 0..30 ops from {write, write_all, write_vectored, write! with 1..3 fragments, write!/writeln! whose format string is a bare literal (35 escape-rich literals), write! with char-typed arguments, write! of a Display that uses Formatter::write_char / write_str / nested write! / write_fmt, flush}; data also with one printable run of 64..200 KiB; write_vectored also with no buffers at all or only empty ones over data from G-STREAM cut at generated offsets (also inside escape sequences and multi-byte characters); choices {Auto, AlwaysAnsi, Always, Never} (Auto under two pinned environments: NO_COLOR=1 and CLICOLOR_FORCE=1); sinks {Vec<u8>, Box<dyn Write>, &mut Vec<u8>, File, anstream::Buffer, Box<Vec<u8>>, Box<dyn Write + Send>, Box<File>}. Oracle: Never => sink == what a StripStream<Vec<u8>> fed the same ops holds (same return values) == strip(bytes reported consumed); AlwaysAnsi/Always => sink == bytes reported consumed; current_choice reports the mode in force; into_inner returns exactly what was delivered; to_adapted_string strips or forwards according to the stream's choice. lock(): on the standard streams (child process, pipes) a write, lock(), write sequence delivers what the unlocked stream delivers. Non-trivial = at least two different write-family calls and an op boundary inside an escape sequence (distinct by case).";
+const RULE: &str = "A case is (colour choice, sink kind, constructor, operation sequence). Operation sequences of 0..30 ops from {write, write_all, write_vectored, write! with 1..3 fragments, write!/writeln! whose format string is a bare literal (35 escape-rich literals), write! with char-typed arguments, write! of a Display that uses Formatter::write_char / write_str / nested write! / write_fmt, flush}; data also with one printable run of 64..200 KiB; write_vectored also with no buffers at all or only empty ones over data from G-STREAM cut at generated offsets (also inside escape sequences and multi-byte characters); choices {Auto, AlwaysAnsi, Always, Never} (Auto under two pinned environments, NO_COLOR=1 and CLICOLOR_FORCE=1, and under each process-wide ColorChoice - an explicit choice must win over the global one); sinks {Vec<u8>, Box<dyn Write>, &mut Vec<u8>, File, anstream::Buffer, Box<Vec<u8>>, Box<dyn Write + Send>, Box<File>}. Oracle: Never => sink == what a StripStream<Vec<u8>> fed the same ops holds (same return values) == strip(bytes reported consumed); AlwaysAnsi/Always => sink == bytes reported consumed; current_choice reports the mode in force; into_inner returns exactly what was delivered; to_adapted_string strips or forwards according to the stream's choice. lock(): on the standard streams (child process, pipes) a write, lock(), write sequence delivers what the unlocked stream delivers. Non-trivial = at least two different write-family calls and an op boundary inside an escape sequence (distinct by case).";
 
 #[derive(Clone, Debug, Serialize, Deserialize, PartialEq)]
 enum Op {
@@ -43,6 +43,10 @@ struct Case {
     ops: Vec<Op>,
     /// environment phase: true = NO_COLOR=1 (Auto resolves to Never), false = CLICOLOR_FORCE=1
     no_color: bool,
+    /// the process-wide ColorChoice in force while the case runs (0 Auto, 1 AlwaysAnsi, 2 Always,
+    /// 3 Never): consulted by the Auto choice only, an explicit choice wins over it
+    #[serde(default)]
+    global: u8,
 }
 
 fn choice_of(c: u8) -> ColorChoice {
@@ -245,19 +249,32 @@ fn check_case(case: &Case) -> Result<bool, String> {
         // replay mode: pin the environment the case was generated for
         set_env(case.no_color);
     }
+    if ColorChoice::global() != choice_of(case.global) {
+        // replay mode
+        choice_of(case.global).write_global();
+    }
+    // what `Auto` resolves to: the global choice unless that is Auto too, then the environment
+    let auto_strips = match choice_of(case.global) {
+        ColorChoice::Auto => case.no_color,
+        ColorChoice::Never => true,
+        _ => false,
+    };
     let strips = match choice_of(case.choice) {
         ColorChoice::Never => true,
-        ColorChoice::Auto => case.no_color,
+        ColorChoice::Auto => auto_strips,
         _ => false,
     };
     let out = match case.sink {
         0 => {
             let raw: Vec<u8> = Vec::new();
             if choice_of(case.choice) == ColorChoice::Auto {
-                let want = if strips { ColorChoice::Never } else { ColorChoice::Always };
+                let want = match choice_of(case.global) {
+                    ColorChoice::Auto => if strips { ColorChoice::Never } else { ColorChoice::Always },
+                    g => g,
+                };
                 let got = AutoStream::choice(&raw);
                 if got != want {
-                    return Err(format!("AutoStream::choice is {:?} with NO_COLOR={}, expected {:?}", got, case.no_color, want));
+                    return Err(format!("AutoStream::choice is {:?} with NO_COLOR={} and global {:?}, expected {:?}", got, case.no_color, choice_of(case.global), want));
                 }
             }
             drive(build(raw, case), strips, &case.ops, None, Ok)?
@@ -330,7 +347,7 @@ fn check_case(case: &Case) -> Result<bool, String> {
     if let Ok(text) = std::str::from_utf8(&out.consumed) {
         let sink: Vec<u8> = Vec::new();
         let got = anstream::_macros::to_adapted_string(&text, &sink);
-        let want = if case.no_color { String::from_utf8_lossy(&strip_bytes_vec(text.as_bytes())).into_owned() } else { text.to_owned() };
+        let want = if auto_strips { String::from_utf8_lossy(&strip_bytes_vec(text.as_bytes())).into_owned() } else { text.to_owned() };
         if got != want {
             return Err(format!("to_adapted_string({}) = {} expected {}", esc(text.as_bytes()), esc(got.as_bytes()), esc(want.as_bytes())));
         }
@@ -359,7 +376,7 @@ fn check_case(case: &Case) -> Result<bool, String> {
     Ok(kinds.len() >= 2 && split_inside)
 }
 
-fn arb_case(no_color: bool, huge: bool) -> impl Strategy<Value = Case> {
+fn arb_case(no_color: bool, global: u8, huge: bool) -> impl Strategy<Value = Case> {
     (
         0u8..4,
         prop_oneof![3 => Just(0u8), 3 => Just(1u8), 2 => Just(2u8), 1 => Just(3u8), 1 => Just(4u8), 1 => Just(5u8), 1 => Just(6u8), 1 => Just(7u8)],
@@ -426,25 +443,27 @@ fn arb_case(no_color: bool, huge: bool) -> impl Strategy<Value = Case> {
                 // Write op is simply not part of the stream's input
                 ops.push(op);
             }
-            Case { choice, sink, via_new, ops, no_color }
+            Case { choice, sink, via_new, ops, no_color, global }
         })
 }
 
 fn run(args: &Args, rep: &mut Report) {
     let tier = args.tier;
     colorchoice::ColorChoice::Auto.write_global();
-    for no_color in [true, false] {
+    for (no_color, global) in [(true, 0u8), (false, 0), (true, 2), (false, 3), (true, 1), (false, 1)] {
         set_env(no_color);
-        let name = if no_color { "op-sequences-NO_COLOR" } else { "op-sequences-CLICOLOR_FORCE" };
+        choice_of(global).write_global();
+        let name = format!("op-sequences-{}-global-{:?}", if no_color { "NO_COLOR" } else { "CLICOLOR_FORCE" }, choice_of(global));
+        let name = name.as_str();
         rep.add(
             name,
             false,
-            "0..30 ops over G-STREAM data x 4 choices x 8 sinks x 2 constructors",
+            "0..30 ops over G-STREAM data x 4 choices x 8 sinks x 2 constructors, under the stated environment and process-wide colour choice",
             prop_par(
                 name,
                 args.seed,
-                tier.pick(20_000, 2_000_000),
-                move || arb_case(no_color, false),
+                if global == 0 { tier.pick(14_000, 1_400_000) } else { tier.pick(3_000, 300_000) },
+                move || arb_case(no_color, global, false),
                 |case, acc: &mut Acc| {
                     acc.class(&format!("choice-{:?}", choice_of(case.choice)));
                     acc.class(["sink-Vec", "sink-BoxDyn", "sink-&mut Vec", "sink-File", "sink-Buffer", "sink-Box<Vec>", "sink-BoxDynSend", "sink-Box<File>"][case.sink as usize & 7]);
@@ -457,6 +476,7 @@ fn run(args: &Args, rep: &mut Report) {
             ),
         );
     }
+    colorchoice::ColorChoice::Auto.write_global();
     set_env(true);
     rep.add(
         "op-sequences-huge",
@@ -466,7 +486,7 @@ fn run(args: &Args, rep: &mut Report) {
             "op-sequences-huge",
             args.seed,
             tier.pick(120, 6_000),
-            || arb_case(true, true),
+            || arb_case(true, 0, true),
             |case, _: &mut Acc| match check_case(case) {
                 Ok(_) => Verdict::ok(Some(digest_str(&serde_json::to_string(case).unwrap()))),
                 Err(m) => Verdict { result: Err(m), nontrivial: None },
